@@ -247,7 +247,7 @@ PRelocInfo ReadRelocInfo(FILE* f) {
     PRelocInfo   PInfo;
     PRelocEntry  PEntry;
     PExportEntry PExp;
-    Boolean      OK = FALSE;
+    Boolean      OK = FALSE, RelocsOK;
     LongWord     StringLen, StringPos;
     LongInt      z;
 
@@ -280,7 +280,7 @@ PRelocInfo ReadRelocInfo(FILE* f) {
                             if (!Read8(f, &PEntry->Addr)) {
                                 break;
                             }
-                            if (!Read4(f, &StringPos)) {
+                            if (!Read4(f, &StringPos) || (StringPos >= StringLen)) {
                                 break;
                             }
                             PEntry->Name = PInfo->Strings + StringPos;
@@ -289,11 +289,13 @@ PRelocInfo ReadRelocInfo(FILE* f) {
                             }
                         }
 
+                        RelocsOK = (z == PInfo->RelocCount);
+
                         /* read export entries */
 
                         for (z = 0, PExp = PInfo->ExportEntries; z < PInfo->ExportCount;
                              z++, PExp++) {
-                            if (!Read4(f, &StringPos)) {
+                            if (!Read4(f, &StringPos) || (StringPos >= StringLen)) {
                                 break;
                             }
                             PExp->Name = PInfo->Strings + StringPos;
@@ -307,8 +309,15 @@ PRelocInfo ReadRelocInfo(FILE* f) {
 
                         /* read strings */
 
-                        if (z == PInfo->ExportCount) {
+                        if (RelocsOK && (z == PInfo->ExportCount)) {
                             OK = ((fread(PInfo->Strings, 1, StringLen, f)) == StringLen);
+
+                            /* the names are C strings inside this table */
+
+                            if (OK && (StringLen > 0)
+                                && (PInfo->Strings[StringLen - 1] != '\0')) {
+                                OK = FALSE;
+                            }
                         }
                     }
                 }
